@@ -14,6 +14,7 @@ From AV Require Import Multipart.Roundtrip.
 From AV Require Import Multipart.Stream2.
 From AV Require Import Multipart.Roundtrip2.
 From AV Require Import Multipart.Preamble.
+From AV Require Import Multipart.Drop.
 From AV Require Import Gen.MultipartTables.
 From AV Require Import Multipart.GenTie.
 
@@ -367,3 +368,64 @@ Proof.
   exact (conj wake_after_loop_matches_generated (conj wake_early_pending_matches_generated
         (conj wake_early_chunk_matches_generated eof_exit_matches_generated))).
 Qed.
+
+(* payload.rs append_pending (the only place that grows the parse buffer): the Overflow guard,
+   the free room `available = buffer_limit - buf.len()` derived from the buffer itself on EVERY
+   call (no room carried between the two call sites of the poll loop), `min(data.len(),
+   available)`, whole/split.  The seeded change C15-3 (room computed once per poll) breaks this
+   statement; C15_poll_stream_never_overfills is what it buys. *)
+Theorem C15_append_pending_matches_generated : forall p data,
+  p_pending p = Some data -> is_nil data = false ->
+  append_pending p =
+    if MP_AP_OVERFLOW_TEST (lenN (p_buf p)) (p_limit p) then Err EOverflow
+    else
+      let len := MP_AP_LEN (lenN data) (MP_AP_AVAILABLE (p_limit p) (lenN (p_buf p))) in
+      if MP_AP_WHOLE_TEST len (lenN data)
+      then Ok (set_buf (set_pending p None) (p_buf p ++ data), negb (len =? 0))
+      else Ok (set_pending (set_buf (set_pending p None) (p_buf p ++ firstn (N.to_nat len) data))
+                           (Some (skipn (N.to_nat len) data)), negb (len =? 0)).
+Proof. exact append_pending_matches_generated. Qed.
+
+(* Back-pressure: one poll_stream call — held-back left-over first, then up to 16 ready chunks,
+   each append with the room of THAT moment — never leaves more than buffer_limit bytes in the
+   buffer, whatever the chunk sizes, for every variant. *)
+Theorem C15_poll_stream_never_overfills : forall (o25 : bool) (p p' : pb) (w : bool),
+  lenN (p_buf p) <= p_limit p -> poll_stream o25 p = Ok (p', w) ->
+  lenN (p_buf p') <= p_limit p /\ p_limit p' = p_limit p.
+Proof.
+  intros o25 p p' w B H. destruct (poll_stream_spec o25 p p' w B H) as (B' & L & _).
+  unfold bounded in B'. rewrite L in B'. auto.
+Qed.
+
+(* non-vacuity: limit 8, buffer holds 3 bytes, a 4-byte left-over is pending and two more chunks
+   (6 and 5 bytes) are ready: the left-over fits, the next chunk is cut to the ONE byte of room
+   that is left at that moment *)
+Example C15_poll_stream_room_example :
+  poll_stream false (mkPb [EChunk [1;2;3;4;5;6]; EChunk [7;7;7;7;7]] (Some [9;9;9;9]) [0;0;0] 8 false)
+  = Ok (mkPb [EChunk [7;7;7;7;7]] (Some [2;3;4;5;6]) [0;0;0;9;9;9;9;1] 8 false, true).
+Proof. reflexivity. Qed.
+
+(* Consumer that DROPS a Field before its end (partial: local statement about the "release
+   field" loop at the start of Inner::poll, for a scanned field — no Content-Length — whose
+   remaining content c and whole delimiter have been buffered; the whole-parser composition
+   over every chunking, and Content-Length fields, are exercised by the correspondence only:
+   `consume: k` cases).  Full statement aimed at: for every valid part list, every chunking and
+   every k, a consumer that drops each handle after k chunks gets the heads of all parts, a
+   prefix of each content, and the clean end.
+   Here: the loop discards exactly the rest of the content and the CRLF in front of the boundary
+   line — whatever the content (CR, LF, dashes, look-alikes; clean) — reports the field
+   released, and leaves "--" boundary ++ tail for read_boundary: nothing of the next part is
+   swallowed (no merge), nothing of the dropped content is left over to be parsed as a line. *)
+Theorem C15_dropped_field_skips_to_boundary_partial : forall (bnd c tail : bytes) (p : pb),
+  p_buf p = c ++ delim bnd ++ tail -> clean bnd c ->
+  release false false (S (length (p_buf p))) bnd (mkField true false None) p
+  = RelDone None (set_buf p (DD ++ bnd ++ tail)).
+Proof. intros bnd c tail p. exact (inner_release_scanned bnd c p tail). Qed.
+
+(* non-vacuity: boundary "ab", dropped content  x CR LF - - a CR  (look-alike), next part "y" *)
+Example C15_dropped_field_example :
+  clean [97; 98] [120; 13; 10; 45; 45; 97; 13] /\
+  release false false 100%nat [97; 98] (mkField true false None)
+    (mkPb [] None ([120; 13; 10; 45; 45; 97; 13] ++ delim [97; 98] ++ [13; 10; 104; 13; 10; 13; 10; 121]) 64 false)
+  = RelDone None (mkPb [] None (DD ++ [97; 98] ++ [13; 10; 104; 13; 10; 13; 10; 121]) 64 false).
+Proof. split; [apply cleanb_clean; reflexivity|reflexivity]. Qed.
